@@ -17,5 +17,6 @@ verus! {
 //@include ghost_nfa.rs
 //@include ghost_link_bw.rs
 //@include ghost_ac.rs
+//@include ghost_lm_bw.rs
 } // verus!
 fn main() {}
